@@ -27,6 +27,10 @@ def run(chk, replay=None):
             # short episodes with wide windows: entries still unfilled (negative seq = default output) when the horizon ends
             steps = [rnd.choice([3, 4, 5]) for _ in range(ne)]
             for c in cfg["conns"].values(): c["window"] = 3
+        if g % 4 == 3:
+            # nodes that adapt their own params in step(): the returned step state (params included) is what the node's next step starts from in BOTH runtimes
+            # (the models have no params: these graphs are compared runtime against runtime only)
+            cfg["adaptive_params"] = True
         combos = [COMBOS[(2 * g + chk.seed + i) % 6] for i in range(2)] if quick else COMBOS
         seed = rnd.getrandbits(16)
         for (m, p) in combos:
@@ -87,6 +91,7 @@ def run(chk, replay=None):
             # they do not hold the theorem is silent and the verdict rests on check_replay + the row comparison alone)
             chk.feat("sched_ok-accepts" if m.get("schedok") == 1 else "sched_ok-rejects")
             chk.feat("extra_ok-accepts" if m.get("extraok") == 1 else "extra_ok-rejects")
+            if j["cfg"].get("adaptive_params"): chk.feat("adaptive-params(runtime-vs-runtime only)"); continue
             d = cl.compare_rows(j["cfg"], rr["episodes"][e], m)
             if d: chk.broke("correspondence:M3-vs-Graph", f"{d} | job={j['id']}")
     chk.extra["rule"] = ("lattice graphs with probe nodes (all connection policies) are run for 1-3 episodes of different lengths by the threaded runtime with "
